@@ -245,6 +245,7 @@ func runHist[E any](et *etype[E], c HistCase) (out pbt.Outcome, st histStats) {
 		return out, h.st
 	}
 	head := "[" + et.name + "] "
+	onceLabelled := false
 	for i, sd := range c.Slots {
 		if sd.Len < 0 || sd.Spare < 0 {
 			out.Skipped, out.Evals = true, 1
@@ -267,7 +268,10 @@ func runHist[E any](et *etype[E], c HistCase) (out pbt.Outcome, st histStats) {
 				return out, h.st
 			}
 			out.Evals++
-			out.Labels = append(out.Labels, "hist:slot-once-was-big")
+			if !onceLabelled {
+				onceLabelled = true
+				out.Labels = append(out.Labels, "hist:slot-once-was-big")
+			}
 		} else {
 			s = h.mk(codes, sd.Spare)
 		}
@@ -284,6 +288,8 @@ func runHist[E any](et *etype[E], c HistCase) (out pbt.Outcome, st histStats) {
 			out.Labels = append(out.Labels, l)
 		}
 	}
+	var opSeen [16][2]bool
+	var roomySeen [16][2]bool
 	for cyc := 0; cyc < cycles; cyc++ {
 		for _, op := range c.Ops {
 			step++
@@ -411,6 +417,9 @@ func runHist[E any](et *etype[E], c HistCase) (out pbt.Outcome, st histStats) {
 				}
 				p = try(func() { slices.Fill(t.s, v) })
 			case 9:
+				if h.st.gcs >= 3 {
+					continue // a full collection costs about a millisecond: at most three per history
+				}
 				callf = func() string { return "runtime.GC()" }
 				runtime.GC()
 				h.st.gcs++
@@ -462,7 +471,9 @@ func runHist[E any](et *etype[E], c HistCase) (out pbt.Outcome, st histStats) {
 				if k >= 1 && k <= sp {
 					h.st.selfInPlace++
 				}
-				lab("hist:InsertSlice(self):" + aliasRelation(idx, lo, hi, n, k <= sp))
+				if cyc == 0 {
+					lab("hist:InsertSlice(self):" + aliasRelation(idx, lo, hi, n, k <= sp))
+				}
 			case 12:
 				if ns < 2 {
 					continue
@@ -556,15 +567,21 @@ func runHist[E any](et *etype[E], c HistCase) (out pbt.Outcome, st histStats) {
 				return out, h.st
 			}
 			if op.K != 9 && op.K != 14 && op.K != 10 {
-				h.st.slotsUsed[S] = true
+				if !h.st.slotsUsed[S] {
+					h.st.slotsUsed[S] = true
+				}
 				if lastSlot >= 0 && lastSlot != S {
 					h.st.switches++
 				}
 				lastSlot = S
 				if unusedBefore > 64<<10 {
 					h.st.roomyCalls++
-					lab("hist:" + name + ":unused-capacity>64KiB")
-					if unusedBefore > 1<<20 {
+					if !roomySeen[op.K][0] {
+						roomySeen[op.K][0] = true
+						lab("hist:" + name + ":unused-capacity>64KiB")
+					}
+					if unusedBefore > 1<<20 && !roomySeen[op.K][1] {
+						roomySeen[op.K][1] = true
 						lab("hist:" + name + ":unused-capacity>1MiB")
 					}
 				}
@@ -574,9 +591,11 @@ func runHist[E any](et *etype[E], c HistCase) (out pbt.Outcome, st histStats) {
 			} else if len(h.hist) < 610 {
 				h.hist += " ...(more)"
 			}
-			if sp > 0 {
+			if sp > 0 && !opSeen[op.K][1] {
+				opSeen[op.K][1] = true
 				lab("hist:" + name + ":spare>0")
-			} else {
+			} else if sp == 0 && !opSeen[op.K][0] {
+				opSeen[op.K][0] = true
 				lab("hist:" + name + ":spare=0")
 			}
 		}
